@@ -150,6 +150,20 @@ def gen_pattern(rng, targets):
     if r < 0.7:
         j = rng.randrange(i, len(t) + 1)
         return ".*" + t[i:j] + ".*" if t[i:j] else ".*"
+    if r < 0.74:
+        # richer constructs of the modelled regex subset (alternation, group, class, optional, own anchors)
+        k = rng.randrange(6)
+        if k == 0:
+            return t[:i] + "(?:" + t[i:] + "|zzz)"
+        if k == 1:
+            return "qq|" + t              # top-level alternation: the wrapper's group keeps it whole-string
+        if k == 2:
+            return "[" + t[0] + "x]" + t[1:] if t[0] not in "-^]\\" else t
+        if k == 3:
+            return t + "x?"
+        if k == 4:
+            return "^" + t + "$"
+        return t[:i] + ".+" if i < len(t) else t
     if r < 0.8:
         return t[:i]            # proper prefix: must NOT match (whole-string semantics)
     if r < 0.9:
@@ -365,7 +379,7 @@ class C05(PropBase):
     def trusted_base(self):
         return super().trusted_base() + [
             "modelled, not verified: serde_json decoding of the definition, jiff parsing of the bounds, the regex crate "
-            "(patterns restricted to literal / prefix.* / .*suffix / .*infix.* shapes until the regex model is wired in)"]
+            "outside the modelled subset (the model answers UNDEF there)"]
 
     def assumptions(self):
         return ["pattern matching is a parameter of the theorems (whole-string match m); its meaning is C11/C18"]
